@@ -91,6 +91,7 @@ Json EngineGen::generate(uint64_t seed, const runner::GenOptions& opt, const Eng
   cfg.set("pct", (int64_t)rng.range(1, 3));
   cfg.set("sched_seed", (int64_t)(rng.next() >> 2));
   cfg.set("client_version", (int64_t)rng.range(1, 9));
+  cfg.setb("trace", rng.chance(120));   // engine tracing to a file: every trace call site runs
   plan.set("config", cfg);
 
   Program prog;
@@ -411,6 +412,7 @@ struct Run : public BuildEngineDelegate, public basic::ExecutionQueueDelegate {
   uint32_t clientVersion = 1;
   int syncBeforeBuild = 0;       // builds with index < this run in canonical (sync) mode regardless of rule modes
   bool forceSync = false;
+  bool traceOn = false;
   bool restartEveryBuild = false;
   bool dropRestarts = false;
   bool allowCycleBreak = false;
@@ -1193,6 +1195,7 @@ void Run::load() {
   queueAlg = (int)cfg->getn("alg");
   clientVersion = (uint32_t)cfg->getn("client_version", 1);
   forceSync = cfg->getb("force_sync");
+  traceOn = cfg->getb("trace");
   syncBeforeBuild = (int)cfg->getn("sync_before_build", 0);
   if (const Json* kj = plan.find("kill")) {
     killBuild = (int)kj->getn("build");
@@ -1443,6 +1446,11 @@ void Run::ensureEngine() {
   engine.reset(new BuildEngine(*this));
   engineFresh = true;
   attachFailed = false;
+  if (traceOn) {
+    std::string terr;
+    engine->enableTracing("/sim/engine-trace.json", &terr);
+    ctr()["engines_with_tracing"]++;
+  }
   if (useDb) {
     std::string err;
     auto db = createSQLiteBuildDB(dbPath, clientVersion, /*recreateUnmatchedVersion=*/true, &err);
